@@ -42,6 +42,12 @@ func (vc *VC) allocIsLocal(x *ssa.Alloc) bool {
 					return false
 				}
 			case *ssa.DebugRef:
+			case *ssa.MakeClosure:
+				// captured by a function literal that only reads it, and the literal is only handed to
+				// calls as an argument (never invoked or deferred here): no callee can write the variable
+				if v != ssa.Value(x) || !closureReadsOnly(u, v) {
+					return false
+				}
 			default:
 				return false
 			}
@@ -49,4 +55,63 @@ func (vc *VC) allocIsLocal(x *ssa.Alloc) bool {
 		return true
 	}
 	return ok(x, 0)
+}
+
+// closureReadsOnly: in the function literal of mc the variable bound to cell is only loaded, and the
+// closure value itself is only passed as a call argument.
+func closureReadsOnly(mc *ssa.MakeClosure, cell ssa.Value) bool {
+	fn, ok := mc.Fn.(*ssa.Function)
+	if !ok {
+		return false
+	}
+	for i, b := range mc.Bindings {
+		if b != cell {
+			continue
+		}
+		if i >= len(fn.FreeVars) {
+			return false
+		}
+		refs := fn.FreeVars[i].Referrers()
+		if refs == nil {
+			return false
+		}
+		for _, r := range *refs {
+			switch u := r.(type) {
+			case *ssa.UnOp:
+			case *ssa.DebugRef:
+			default:
+				_ = u
+				return false
+			}
+		}
+	}
+	if len(fn.AnonFuncs) > 0 {
+		return false
+	}
+	refs := mc.Referrers()
+	if refs == nil {
+		return false
+	}
+	for _, r := range *refs {
+		c, ok := r.(*ssa.Call)
+		if !ok || c.Call.Value == ssa.Value(mc) {
+			return false
+		}
+	}
+	return true
+}
+
+// capturedReadOnly: a heap-allocated variable (it is captured by a closure) that still qualifies as a
+// local because every capture only reads it (allocIsLocal has checked the captures).
+func (vc *VC) capturedReadOnly(x *ssa.Alloc) bool {
+	refs := x.Referrers()
+	if refs == nil {
+		return false
+	}
+	for _, r := range *refs {
+		if _, ok := r.(*ssa.MakeClosure); ok {
+			return true
+		}
+	}
+	return false
 }
